@@ -42,6 +42,7 @@ def offenceOfTag (tag : String) (code : Nat) (known rl : Bool) : Option Offence 
   else if tag == "stream not open" then some .trailersWithoutEndStream
   else if tag == "compression" then some .compression
   else if tag == "header list exceeds the maximum size" then some .headerListTooLarge
+  else if tag == "header field exceeds the maximum header list size" then some .headerListTooLarge   -- same offence (F68)
   else if tag == "END_HEADERS received on an incomplete stream" then some .endHeadersIncomplete
   else if tag == "stream didn't end the headers" then some .dataInHeaderBlock
   else if tag == "stream closed" then some .dataOnHalfClosed
